@@ -388,8 +388,12 @@ def rollback_flags_false(facts):
     import core
     import guardfx
 
+    import sessionsem
+
     r = core.Report("tmp", "quick")
-    guardfx.session_params_const_false(facts, r)
+    _n, decided = sessionsem.run(facts, r, parts=("params",))
+    if not decided:
+        guardfx.session_params_const_false(facts, r)
     return not r.violations and r.obligations >= 2
 
 
@@ -546,8 +550,13 @@ def l2(facts, rep, M):
 
 def l3(facts, rep, M):
     """take_global_guard = false only in Nomt::rollback under the write guard; FinishedSession.take_global_guard
-    derives from access_guard.is_some()"""
-    n = 0
+    derives from access_guard.is_some().  The SessionParams half is decided semantically (rules/sessionsem.py) whenever the
+    parameter values can be evaluated; the field-level rules below then only cover FinishedSession."""
+    import sessionsem
+    import core
+
+    n, decided = sessionsem.run(facts, rep, parts=("l3",))
+    skip_params = decided
     for body in facts.bodies.values():
         if body.crate != "nomt":
             continue
@@ -559,7 +568,7 @@ def l3(facts, rep, M):
                 if s["k"] != "assign":
                     continue
                 pl = s["pl"]
-                if "take_global_guard" in fields_of(pl) and pl.get("o", [""])[-1] in ("nomt::SessionParams",):
+                if not skip_params and "take_global_guard" in fields_of(pl) and pl.get("o", [""])[-1] in ("nomt::SessionParams",):
                     rv = s["rv"]
                     is_false = rv["k"] == "use" and rv["op"]["k"] == "const" and rv["op"].get("int") == "0"
                     n += 1
@@ -576,6 +585,9 @@ def l3(facts, rep, M):
                         op = s["rv"]["ops"][fl.index("take_global_guard")]
                         n += 1
                         if s["rv"]["name"] == "nomt::SessionParams":
+                            if skip_params:
+                                n -= 1
+                                continue
                             ok = op["k"] == "const" and op.get("int") == "1"
                             rep.check(ok, "L3", body.id.split("::", 1)[1], "SessionParams{take_global_guard}", "a SessionParams is built at %s with take_global_guard not constant true" % s.get("ln"), site=s.get("ln"), detail="take_global_guard: true")
                         else:
@@ -783,9 +795,25 @@ def l6(facts, rep, M):
                 if any(cls == SHARED for (cls, _m, _ln) in M.may_acquire(clo)):
                     starters.append((b, clo, s.get("ln")))
     rep.floor("L6 read-transaction starters in begin_session", len(starters), 2)
+    import sessionsem
+
+    pr = sessionsem.default_pruned(facts)
+    gates = {x for (x, _t) in acq_sites}
+
+    def guard_first(b):
+        if b in gates:
+            return False
+        if body.dominates(gb, b):
+            return True
+        # the guard may sit on the arm of a branch on the session's internal switches: judge on the control-flow graph pruned
+        # by the value of SessionParams::default() (a public session), where only that arm is executable
+        if pr is not None and pr[0].id == body.id and b in pr[1].blocks.get(body.id, ()):
+            return sessionsem.passes_before(pr[0], pr[1], gates, b)
+        return False
+
     for (b, c, ln) in starters:
         n += 1
-        rep.check(body.dominates(gb, b) and b != gb, "L6", short, "guard-before|%s" % c.split("::", 1)[1].split("::{closure")[0], "%s (which opens a read transaction) at %s is not preceded by the acquisition of the access read guard: a commit could start waiting for a read transaction of a session that cannot finish" % (c, ln), site=ln, detail="%s at %s after the guard" % (c.split("::", 1)[1], ln))
+        rep.check(guard_first(b), "L6", short, "guard-before|%s" % c.split("::", 1)[1].split("::{closure")[0], "%s (which opens a read transaction) at %s is not preceded by the acquisition of the access read guard: a commit could start waiting for a read transaction of a session that cannot finish" % (c, ln), site=ln, detail="%s at %s after the guard" % (c.split("::", 1)[1], ln))
     return n
 
 
